@@ -1,8 +1,10 @@
 package c16
 
 import (
+	"bytes"
 	"context"
 	"fmt"
+	"net"
 	"os"
 	"os/exec"
 	"strings"
@@ -11,6 +13,7 @@ import (
 	"github.com/c2FmZQ/ech"
 	"github.com/c2FmZQ/ech/dns"
 
+	"verif/internal/dnsref"
 	"verif/internal/dohmem"
 	"verif/internal/ev"
 	"verif/internal/workers"
@@ -63,6 +66,7 @@ func footprint(r *ev.Run) {
 			}
 			r.Eval(fmt.Sprintf("footprint:%d:%s", v, net), fmt.Sprintf("footprint: %d targets, shared memory untouched", n))
 		}
+		appendOracle(r, res, r1, r2, fmt.Sprint("zone version ", v))
 		// a third Resolve must not disturb results handed out earlier
 		before := snap(r1)
 		clock = clock.Add(400 * time.Second)
@@ -70,6 +74,73 @@ func footprint(r *ev.Run) {
 			r.Violation("footprint:resolve-writes-earlier-result", "a later Resolve modified a result handed out earlier", map[string]any{"zone_version": v})
 		}
 	}
+	// a record with every parameter the resolver uses, in wire order alpn, port, ipv4hint, ech, ipv6hint (what follows a field
+	// in the message is what a slice with spare capacity would expose), a target name with its own addresses, TTL 60
+	{
+		srv.Zone = func(name string, t uint16) dohmem.Answer {
+			a := func(b byte) dnsref.RR {
+				return dnsref.RR{Name: name, Type: t, Class: 1, TTL: 60, Fields: []dnsref.Field{{Raw: map[uint16][]byte{1: {10, 3, 3, b}, 28: append(make([]byte, 15), b)}[t]}}}
+			}
+			switch {
+			case name == "n1.example" && t == 65:
+				return dohmem.Answer{Records: []dnsref.RR{
+					{Name: name, Type: 65, Class: 1, TTL: 60, Fields: dnsref.SVCB(1, "", []dnsref.Param{dnsref.ParamALPN("h3", "h2"), dnsref.ParamPort(8443), dnsref.ParamIPv4([]byte{192, 0, 2, 1}, []byte{192, 0, 2, 2}), dnsref.ParamECH([]byte{0xec, 1, 2, 3}), dnsref.ParamIPv6(net.ParseIP("2001:db8::1"))})},
+					{Name: name, Type: 65, Class: 1, TTL: 60, Fields: dnsref.SVCB(2, "t.n1.example", []dnsref.Param{dnsref.ParamNoDefaultALPN(), dnsref.ParamALPN("h2"), dnsref.ParamECH([]byte{0xec, 9})})},
+				}}
+			case (name == "n1.example" || name == "t.n1.example") && (t == 1 || t == 28):
+				return dohmem.Answer{Records: []dnsref.RR{a(1), a(2)}}
+			}
+			return dohmem.Answer{}
+		}
+		res, _ := ech.NewResolver("https://doh.test/dns-query")
+		r1, err1 := res.Resolve(context.Background(), "n1.example")
+		r2, err2 := res.Resolve(context.Background(), "n1.example")
+		if err1 != nil || err2 != nil || len(r1.HTTPS) != 2 || len(r1.HTTPS[0].IPv6Hint) != 1 {
+			ev.ToolError("c16 footprint: the hinted zone does not resolve as built: %v %v %+v", err1, err2, r1)
+		}
+		appendOracle(r, res, r1, r2, "record with hints after its ech parameter")
+	}
+}
+
+// appendOracle: a consumer that APPENDS to what it was handed (never writing an element it can see) changes nothing for anybody
+// else: every slice in a result ends where its data ends, it is not a window into memory that holds the next field of the
+// record - the result another caller already holds (r2) and a later lookup (served from the cache or fetched again; the zone
+// does not change) read the same as before.
+func appendOracle(r *ev.Run, res *ech.Resolver, r1, r2 ech.ResolveResult, what string) {
+	l2 := snapResult(r2)
+	for i := range r1.HTTPS {
+		h := &r1.HTTPS[i]
+		_ = append(h.ECH, bytes.Repeat([]byte{0xaa}, 64)...)
+		_ = append(h.ALPN, "appended-by-consumer")
+		for _, ip := range h.IPv4Hint {
+			_ = append(ip, bytes.Repeat([]byte{0xbb}, 64)...)
+		}
+		for _, ip := range h.IPv6Hint {
+			_ = append(ip, bytes.Repeat([]byte{0xcc}, 64)...)
+		}
+		_ = append(h.IPv4Hint, net.IP{9, 9, 9, 9})
+		_ = append(h.IPv6Hint, net.IP{9, 9, 9, 9})
+	}
+	for _, ip := range r1.Address {
+		_ = append(ip, bytes.Repeat([]byte{0xdd}, 64)...)
+	}
+	for _, ips := range r1.Additional {
+		for _, ip := range ips {
+			_ = append(ip, bytes.Repeat([]byte{0xee}, 64)...)
+		}
+	}
+	oc := "consumer appends: nothing shared is written"
+	if got := snapResult(r2); got != l2 {
+		oc = "consumer appends reach another result"
+		r.Violation("footprint:consumer-append-reaches-another-result", fmt.Sprintf("a consumer appended to the slices of the result it was handed (no element it could see was written); the result ANOTHER caller holds for the same name now reads\n %s\nbefore\n %s", got, l2), what)
+	}
+	if r3, err := res.Resolve(context.Background(), "n1.example"); err == nil {
+		if got := snapResult(r3); got != l2 {
+			oc = "consumer appends reach the cache"
+			r.Violation("footprint:consumer-append-reaches-the-cache", fmt.Sprintf("a consumer appended to the slices of the result it was handed; the next lookup of the name returns\n %s\nbefore\n %s", got, l2), what)
+		}
+	}
+	r.Eval("footprint-append:"+what, oc)
 }
 
 // multiRecord: names whose HTTPS RRset has several records (out of priority order; alias-mode record in the middle):
